@@ -47,7 +47,7 @@ PROPS["C05"] = {
     "theorems": ["RCE.Props.C05.scratchKey_is_keyOfParts", "RCE.Props.C05.single_square", "RCE.Props.C05.single_turn",
                  "RCE.Props.C05.single_ep", "RCE.Props.C05.single_right"],
     "streams": {"quick": [dict(WALK_Q, args=WALK_Q["args"] + ["--perturb-every", 8])],
-                "thorough": [dict(WALK_T, args=WALK_T["args"] + ["--perturb-every", 4])]},
+                "thorough": [dict(WALK_T, args=WALK_T["args"] + ["--perturb-every", 97])]},
     "rule": WALK_RULE + "; for C05 every explored key is bucketed by position identity (no two identities may share a key) and every perturbed from-scratch key must differ",
     "assumptions": ["the full statement (all pairs of distinct positions) is false for any 64-bit key by counting and is not claimed; "
                     "proved: every single-component difference changes the key, over the regenerated table"],
@@ -104,8 +104,8 @@ SS_T = S("search-stop", "stop", 160, 3, extra=["--step", 1, "--maxcases", 1500])
 SK_T = S("search-keep", "keep", 400, 4)
 
 PROPS["C14"] = {
-    "module": "RCE.Props.C14",
-    "theorems": ["RCE.Props.C14.info_depths", "RCE.Props.C14.depth_limit_complete", "RCE.Props.C14.pv_legal"],
+    "module": "RCE.Props.C14chess",
+    "theorems": ["RCE.Props.C14.info_depths", "RCE.Props.C14.depth_limit_complete", "RCE.Props.C14.pv_legal", "RCE.Props.C14.chess_pv_legal_by_the_rules"],
     "streams": {"quick": [SP_Q, S("search-budget", "budget", 16, 2, extra=["--step", 7, "--maxcases", 40]), S("search-game", "game", 48, 4, extra=["--plies", 8])],
                 "thorough": [SP_T, S("search-budget", "budget", 64, 3, extra=["--step", 11, "--maxcases", 300]), SK_T, S("search-game", "game", 400, 5, extra=["--plies", 12])]},
     "eval_key": "cases", "distinct_key": "distinct_cases",
@@ -163,8 +163,9 @@ PROPS["C09"] = {
 }
 
 PROPS["C07"] = {
-    "module": "RCE.Props.C07",
-    "theorems": ["RCE.Props.C07.fen_roundtrip", "RCE.Props.C07.fen_roundtrip4", "RCE.Props.C07.fromFen_wf", "RCE.Props.C07.start_fen"],
+    "module": "RCE.Props.C07legal",
+    "theorems": ["RCE.Props.C07.fen_roundtrip", "RCE.Props.C07.fen_roundtrip4", "RCE.Props.C07.fromFen_wf", "RCE.Props.C07.start_fen",
+                 "RCE.Props.C07.fromFen_legal", "RCE.Props.C07.fromFen_legal_moves_exact"],
     "streams": {"quick": [FEN_Q, WALK_Q], "thorough": [FEN_T, WALK_T]},
     "rule": "generated FEN family: positions met on random walks from 40 seeds rendered with every castling-letter order, half-move clocks 0..150, move numbers 1..6000, "
             "4-field and 6-field forms, extra blanks; each string is loaded by Board::from_fen and the full state (and the legal moves, keys, evaluation of the loaded position and of a few "
